@@ -39,12 +39,15 @@ func (e *DefaultCompactionExecutor) CompactFiles(task *CompactionTask) ([]string
 	// Create a merged iterator over all input files
 	var iterators []iterator.Iterator
 
-	// Add iterators from both levels
+	// Add iterators from all levels, NEWEST data first: the hierarchical iterator lets an
+	// earlier source win. Shallower levels hold newer data than deeper ones; inside a level the
+	// strategy lists files oldest first (level-0 files overlap), so walk them backwards.
 	for level := 0; level <= task.TargetLevel; level++ {
-		for _, file := range task.InputFiles[level] {
+		files := task.InputFiles[level]
+		for i := len(files) - 1; i >= 0; i-- {
 			// We need an iterator that preserves delete markers
-			if file.Reader != nil {
-				iterators = append(iterators, file.Reader.NewIterator())
+			if files[i].Reader != nil {
+				iterators = append(iterators, files[i].Reader.NewIterator())
 			}
 		}
 	}
